@@ -2,7 +2,7 @@
 Deciding monitors: BOOK on every returned container/well, OBS on every observer call."""
 from __future__ import annotations
 
-from .common import shard, run_cases, BASE_ASSUMPTIONS, repo_suite, repo_suite_job, under_density_configs
+from .common import under_display_configs, shard, run_cases, BASE_ASSUMPTIONS, repo_suite, repo_suite_job, under_density_configs
 
 ID = 'C10'
 LEVEL = 'exploration'
@@ -34,6 +34,7 @@ def plan(tier, seed):
     # the same histories under the documented non-default densities (a fraction of the budget)
     n_cfg = 24 if tier == 'quick' else 400
     jobs = jobs + under_density_configs(shard('history', n_cfg, 2 if tier == 'quick' else 8))
+    jobs = jobs + under_display_configs(shard('history', 24 if tier == 'quick' else 400, 2 if tier == 'quick' else 8))
     if tier != 'quick' or True:
         jobs = jobs + repo_suite_job()
     return jobs
